@@ -106,11 +106,11 @@ def markers_of_diags(diags):
     out = []
     for d in diags:
         m = d["msg"]
-        mm = re.match(r"class not found: (U_\w+)$", m)
+        mm = re.search(r"\b(U_\w+)", m)              # (the undefined class named in the message, whatever the wording)
         if mm:
             out.append("%s@%s" % (mm.group(1), rng_str(d["range"])))
             continue
-        mm = re.match(r"include file not found: (\w+)\.td$", m)
+        mm = re.search(r"\b(\w+)\.td\b", m)
         if mm:
             out.append("NF:" + mm.group(1))
             continue
